@@ -37,3 +37,7 @@ R.loop(
     modifies=["items(self._column_lengths)"],
     fingerprint="(i, row) in enumerate",
 )
+
+# (A contract on _wrap_column - "after wrapping, no cell of the column is wider than the column", with textwrap's line bound
+#  as an axiom over an uninterpreted wrapped(text, width) - was written and proved, but its preservation obligation took
+#  90 s under load: too slow to be a stable part of the checks.  That clause of C14 stays with the bounded tier.)
